@@ -12,7 +12,7 @@ import json, os, subprocess, sys
 from lib import vf
 
 MANIFEST = {
-  'text': "Coq theorems over a labelled transition system of concurrentProcess / externalCommand / LintFiles (state: free semaphore slots, WaitGroup counter, phase of every invocation, errgroup of every rule instance, program counters of the file threads and of the main thread; events: every schedule point, any tool behaviour and latency): for every valid trace (every interleaving, every failure pattern, any number of files and invocations) the number of invocations holding a slot never exceeds the capacity, no invocation is started after proc.wait() began, on return every invocation is done, the returned diagnostics are exactly the issues of the invocations (each once, at its step's run: position) and a fatal error is returned iff some invocation failed; every requested invocation belongs to exactly one run step with an applicable effective shell. Pure models: placeholder replacement preserves length and every byte outside placeholders and leaves no placeholder; exit classification; shellcheck / pyflakes output parsing; shell selection by step > job > workflow > runner. Tie to the code: real Linter runs with stand-in tools under taskset (1, 2, 4, all CPUs) with build-tag guarded schedule points in process.go; each observed event trace is replayed on the model inside Coq and the predicted diagnostics / fatal error / per-invocation outcomes are compared with the observed ones; the pure functions are compared on generated inputs. The property itself is evaluated on every run from the stand-in tool's own log.",
+  'text': "Coq theorems over a labelled transition system of concurrentProcess / externalCommand / LintFiles (state: free semaphore slots, WaitGroup counter, phase of every invocation, errgroup of every rule instance, program counters of the file threads and of the main thread; events: every schedule point, any tool behaviour and latency): for every valid trace (every interleaving, every failure pattern, any number of files and invocations) the number of invocations holding a slot never exceeds the capacity, no invocation is started after proc.wait() began, on return every invocation is done, the returned diagnostics are exactly the issues of the invocations (each once, at its step's run: position) and a fatal error is returned iff some invocation failed; every requested invocation belongs to exactly one run step with an applicable effective shell. Pure models: placeholder replacement preserves length and every byte outside placeholders and leaves no placeholder; exit classification; shellcheck / pyflakes output parsing; shell selection by step > job > workflow > runner. Tie to the code: real Linter runs with stand-in tools under taskset (1, 2, 4, all CPUs) with build-tag guarded schedule points in process.go; each observed event trace is replayed on the model inside Coq and the predicted diagnostics / fatal error / per-invocation outcomes are compared with the observed ones; the pure functions are compared on generated inputs. The property itself is evaluated on every run from the stand-in tool's own log. Source gate: the Acquire / Release / Add / Done / Wait / Go / Lock / Unlock calls of the package are re-listed in source order on every run and proved to be exactly the modelled protocol, balanced per function (coq/Proc/SyncSites.v).",
   'note': "Trusted: Coq kernel; the hand-written model (validated on observed traces, not proved equal to the Go code); hooks in process.go (positions chosen so that the trace order is a linearisation); harness, stand-in tool. Not modelled: os/exec, the Go scheduler and memory model, encoding/json (its verdict is a model input), golang.org/x/sync internals (their specification is what the transition system assumes and the traces test). Needs repo_patches/proc applied to /repo (two hook patches, one fix).",
   'technique': "machine-checked proof in Coq (invariant induction over event traces of a transition system) + trace validation against the instrumented Go implementation with vm_compute",
  }
